@@ -67,3 +67,14 @@ Definition robust_check (k : lp_case) : bool :=
 
 Definition corr_robust_check (eps tol : Q) (k : lp_case) : bool :=
   if robust_check k then corr_check eps tol k else true.
+
+(* public result only (status, and for OPTIMAL the objective within the relative tolerance): used for inputs of large magnitude,
+   where the float code's round-off (relative 1e-16, absolute up to 1e-9 at 1e7) is no longer small against the absolute eps and the
+   pivot trace of the exact model is not a reference for the float run *)
+Definition corr_public_check (eps tol : Q) (k : lp_case) : bool :=
+  let r := run_case eps k in
+  status_eqb (r_status r) (k_status k)
+  && match r_status r with
+     | OPTIMAL => close tol (r_objective r) (k_obj k)
+     | _ => true
+     end.
